@@ -32,6 +32,8 @@ func checkC15(c *Ctx) {
 	}
 	c.Rule("C15/R7", "where a measurement lands does not depend on the lines before it: in Builder.Add every value is appended to the cell looked up (or created) under that measurement's own table key and the result's (row, column) key — no shortcut through cells remembered from an earlier call (same rule as C14/R2)")
 	c.Rule("C15/R8", "sorted key order cannot silently degrade to map order: flattened-field cache invariant (same rule as C09/R10)")
+	c.Rule("C15/R10", "key identity (shared with C08/R1 and C14/R6): interning hashes, compares and stores one trimmed row, so equal value tuples give one key — two keys with identical values would make tables and rows appear twice, in hash-map order")
+	c.Rule("C15/R11", "runs do not talk to each other through package-level variables: nothing reachable from the command writes a package-level variable of the module after package initialisation (direct stores, and stores through a pointer taken to one), apart from the reviewed list")
 	c.Rule("C15/R9", "process-wide caches are keyed by every input of the memoised call, verbatim (same rule as C13/R4, over every function reachable from the command): otherwise what an earlier in-process run asked for leaks into a later run's output")
 	p := mustLoad(c, loadOpts{deep: true}, pats...)
 	fns := p.Funcs(append(append([]string{}, c15Pkgs...), c15Ext...)...)
@@ -55,6 +57,9 @@ func checkC15(c *Ctx) {
 	}
 	c14Add(c, p, "C15/R7")
 	c09FlatInvariant(c, p, "C15/R8")
+	c08InternAs(c, p, "C15/R10")
+	// R11: a run leaves no mark on package-level state that a later run in the same process reads
+	c15Globals(c, p, eff, reach)
 	// R9: process-wide caches on the command's path cannot carry one run's arguments into the next
 	var memoFns []*ssa.Function
 	for _, fn := range p.Funcs(c15Pkgs...) {
@@ -1047,4 +1052,109 @@ func sortsOwnParam(fn *ssa.Function) bool {
 		}
 	}
 	return true
+}
+
+// c15Globals (C15/R11).
+func c15Globals(c *Ctx, p *Prog, eff *effects, reach map[*ssa.Function]bool) {
+	const R = "C15/R11"
+	allowed := map[string]string{}
+	n, nF := 0, 0
+	var fns []*ssa.Function
+	for fn := range reach {
+		fns = append(fns, fn)
+	}
+	sort.Slice(fns, func(i, j int) bool { return fnName(fns[i]) < fnName(fns[j]) })
+	for _, fn := range fns {
+		if fn.Pkg == nil || !strings.HasPrefix(fn.Pkg.Pkg.Path(), modPath) || fn.Name() == "init" {
+			continue
+		}
+		nF++
+		k := 0
+		eachInstr(fn, func(_ *ssa.BasicBlock, in ssa.Instruction) {
+			st, ok := in.(*ssa.Store)
+			if !ok {
+				return
+			}
+			// the global written: directly, through a field/element of it, or through a pointer that is its address
+			var g *ssa.Global
+			addr := st.Addr
+			for i := 0; i < 8 && g == nil; i++ {
+				switch x := addr.(type) {
+				case *ssa.Global:
+					g = x
+				case *ssa.FieldAddr:
+					addr = x.X
+				case *ssa.IndexAddr:
+					addr = x.X
+				case *ssa.Phi:
+					for _, e := range x.Edges {
+						if gg, ok := e.(*ssa.Global); ok {
+							g = gg
+						}
+					}
+					i = 8
+				default:
+					i = 8
+				}
+			}
+			if g == nil || g.Pkg == nil || !strings.HasPrefix(g.Pkg.Pkg.Path(), modPath) {
+				return
+			}
+			n++
+			k++
+			name := strings.TrimPrefix(g.Pkg.Pkg.Path(), modPath+"/") + "." + g.Name()
+			if why, ok := allowed[name]; ok {
+				c.Allow(R, name, why)
+				c.OK(R, fmt.Sprintf("%s:writes %s#%d", fnName(fn), name, k), p.pos(st.Pos()), "reviewed: "+why)
+				return
+			}
+			c.Bad(R, fmt.Sprintf("%s:writes %s#%d", fnName(fn), name, k), p.pos(st.Pos()), "a function on the command's path writes the package-level variable "+name+": what one run sets (a flag value, a threshold) is still there for the next run in the same process, so the same arguments and files no longer give the same output")
+		})
+	}
+	// a pointer to a package-level variable handed to code outside the module (flag.Float64Var(&pkg.Default.X, ...)) is a
+	// write in waiting; synchronisation primitives are the exception
+	for _, fn := range fns {
+		if fn.Pkg == nil || !strings.HasPrefix(fn.Pkg.Pkg.Path(), modPath) || fn.Name() == "init" {
+			continue
+		}
+		k := 0
+		eachInstr(fn, func(_ *ssa.BasicBlock, in ssa.Instruction) {
+			ci, ok := in.(ssa.CallInstruction)
+			if !ok {
+				return
+			}
+			co := calleeObj(ci.Common())
+			if co == nil || co.Pkg() == nil || strings.HasPrefix(co.Pkg().Path(), modPath) || co.Pkg().Path() == "sync" || co.Pkg().Path() == "sync/atomic" {
+				return
+			}
+			for _, a := range callArgs(ci.Common()) {
+				if _, isPtr := a.Type().Underlying().(*types.Pointer); !isPtr {
+					continue
+				}
+				var g *ssa.Global
+				addr := a
+				for i := 0; i < 8 && g == nil; i++ {
+					switch x := addr.(type) {
+					case *ssa.Global:
+						g = x
+					case *ssa.FieldAddr:
+						addr = x.X
+					case *ssa.IndexAddr:
+						addr = x.X
+					default:
+						i = 8
+					}
+				}
+				if g == nil || g.Pkg == nil || !strings.HasPrefix(g.Pkg.Pkg.Path(), modPath) {
+					continue
+				}
+				n++
+				k++
+				name := strings.TrimPrefix(g.Pkg.Pkg.Path(), modPath+"/") + "." + g.Name()
+				c.Bad(R, fmt.Sprintf("%s:lends %s to %s#%d", fnName(fn), name, co.Name(), k), p.pos(in.Pos()), "the address of the package-level variable "+name+" (or of a field of it) is handed to "+co.FullName()+", which stores through it: what one run sets (a flag value, a threshold) is still there for the next run in the same process, so the same arguments and files no longer give the same output")
+			}
+		})
+	}
+	c.OK(R, "globals:scan", "", fmt.Sprintf("%d module functions reachable from the command, %d stores to package-level variables of the module", nF, n))
+	c.Floor(R, "module functions scanned for stores to package-level variables", nF, 100)
 }
